@@ -1,3 +1,120 @@
-"""Canary fixtures: placeholder until fixtures/ is wired (see below)."""
+"""Canary fixtures: the fixture crate /verif/fixtures is analysed by the same driver binary on every
+check run; each rule primitive must flag exactly its `*_bad` example and stay silent on `*_good`."""
+import os
+import shutil
+import core
+import rulekit
+from rulekit import Guard, cpoint
+
+
 def run(workdir, extract):
-    return {'ok': True, 'detail': 'not yet wired', 'obligations': 0, 'cases': []}
+    import run as runner
+    src = os.path.join(runner.VERIF, 'fixtures')
+    dst = os.path.join(workdir, 'fixtures')
+    if os.path.exists(dst):
+        shutil.rmtree(dst)
+    shutil.copytree(src, dst, ignore=shutil.ignore_patterns('target'))
+    fp = extract('D', workdir, manifest_dir=dst, pkg=None, pkg_name='fixtures', lib=True)
+    F = core.Facts(fp)
+    cases = []
+
+    def case(name, expect_violation, fn):
+        ctx = rulekit.Ctx(F, 'canary', 'canary')
+        ctx.set_rule('canary.' + name)
+        try:
+            fn(ctx)
+            got = len(ctx.violations) > 0
+            err = None
+        except Exception as e:  # a crash is a failure
+            got = None
+            err = repr(e)
+        cases.append({'case': name, 'expect_violation': expect_violation, 'got_violation': got, 'ok': got == expect_violation, 'error': err})
+
+    def order(fnname):
+        def f(ctx):
+            g = ctx.fn(fnname)
+            ctx.order(g, ctx.sites(g, 'Dev::flush', exact=1), ctx.sites(g, 'Dev::publish', exact=1))
+        return f
+    case('order_good', False, order('order_good'))
+    case('order_bad', True, order('order_bad'))
+
+    def mustpass(fnname):
+        def f(ctx):
+            g = ctx.fn(fnname)
+            ctx.must_pass(g, ctx.sites(g, 'Dev::flush', exact=1))
+        return f
+    case('mustpass_good', False, mustpass('mustpass_good'))
+    case('mustpass_bad', True, mustpass('mustpass_bad'))
+
+    def after(fnname):
+        def f(ctx):
+            g = ctx.fn(fnname)
+            ctx.guarded(g, ctx.sites(g, 'Dev::publish', exact=1), [Guard(call='Dev::flush', vals={'Ok'})])
+        return f
+    case('after_success_good', False, after('after_success_good'))
+    case('after_success_bad', True, after('after_success_bad'))
+
+    def guard(fnname, target, g_):
+        def f(ctx):
+            g = ctx.fn(fnname)
+            ctx.guarded(g, ctx.sites(g, target, exact=1), g_)
+        return f
+    chk = [Guard(call='Dev::check', vals={'true'})]
+    case('guard_good', False, guard('guard_good', 'Dev::mutate', chk))
+    case('guard_bad', True, guard('guard_bad', 'Dev::mutate', chk))
+    case('guard_assert_good', False, guard('guard_assert_good', 'Dev::mutate', chk))
+    case('guard_early_return_good', False, guard('guard_early_return_good', 'Dev::mutate', chk))
+    er = [Guard(call='Dev::inner', vals={'Err'})]
+    case('guard_matches_good', False, guard('guard_matches_good', 'Dev::poison', er))
+    case('guard_matches_bad', True, guard('guard_matches_bad', 'Dev::poison', er))
+    case('guard_andand_good', False, guard('guard_andand_good', 'Dev::mutate', chk))
+    case('guard_andand_bad', True, guard('guard_andand_bad', 'Dev::mutate', chk))
+    case('guard_is_err_good', False, guard('guard_is_err_good', 'Dev::poison', er))
+    case('guard_atomic_good', False, guard('guard_atomic_good', 'Dev::mutate', [Guard(place='d.failed', vals={'false'})]))
+    case('guard_atomic_wrong_polarity', True, guard('guard_atomic_good', 'Dev::mutate', [Guard(place='d.failed', vals={'true'})]))
+    case('guard_flag_out_param', False, guard('guard_flag_out_param', 'Dev::poison', [Guard(place='poisoned', vals={'true'})]))
+
+    def discards(ctx):
+        ds = {F.root_of(c.fn).path for c in core.discard_sites_generic(F, ('E',))}
+        ctx.check(ds == {'discard_bad', 'discard_ok_bad'}, 'discards', 'discard detector flags exactly discard_bad and discard_ok_bad (got %s)' % sorted(ds))
+    case('discard_exact', False, discards)
+
+    def held(fnname):
+        def f(ctx):
+            g = ctx.fn(fnname)
+            ctx.held(g, ctx.sites(g, 'Dev::mutate', exact=1), 'd.lock')
+        return f
+    case('held_good', False, held('held_good'))
+    case('held_bad', True, held('held_bad'))
+    case('held_temp_bad', True, held('held_temp_bad'))
+
+    def flow(fnname):
+        def f(ctx):
+            g = ctx.fn(fnname)
+            for p in ctx.sites(g, 'Dev::free_until', exact=1):
+                ctx.flows(g, p, 1, from_call='Dev::horizon')
+        return f
+    case('flow_good', False, flow('flow_good'))
+    case('flow_bad', True, flow('flow_bad'))
+
+    case('callers_frozen_ok', False, lambda ctx: ctx.callers_eq('Dev::poison', {'allowed_caller', 'new_caller', 'guard_matches_good', 'guard_matches_bad', 'guard_is_err_good', 'guard_flag_out_param'}))
+    case('callers_new_caller', True, lambda ctx: ctx.callers_eq('Dev::poison', {'allowed_caller', 'guard_matches_good', 'guard_matches_bad', 'guard_is_err_good', 'guard_flag_out_param'}))
+
+    def types(ctx):
+        good = core.adt_contains(F, 'GoodHandle', lambda t: t == 'Guard')
+        none = core.adt_contains(F, 'NoGuardHandle', lambda t: t == 'Guard')
+        a = F.adts['BadOrderHandle']['variants'][0]['fields']
+        order_bad = [f['n'] for f in a].index('guard') < [f['n'] for f in a].index('pages')
+        ctx.check(good and not none and order_bad, 'types', 'type walk: GoodHandle owns Guard, NoGuardHandle does not, BadOrderHandle declares guard first')
+    case('type_walk', False, types)
+
+    def tags(ctx):
+        em, _ = core.emitted_consts(F.fn('Tag::to_byte'))
+        ac, found = core.accepted_values(F.fn('Tag::from_byte'))
+        ctx.check(em == {1, 2, 9} and ac == {1, 2} and found, 'tags', 'tag map extraction: emitted %s accepted %s' % (sorted(em), sorted(map(str, ac))))
+        ctx.check(F.consts['OFFSET']['v'] == 12 and F.consts['NAME']['v'] == 'fixture_table' and F.consts['MAGIC']['v'] == {'raw': [1, 2, 3]}, 'consts', 'constant evaluation')
+    case('tag_maps_and_consts', False, tags)
+
+    bad = [c for c in cases if not c['ok']]
+    return {'ok': not bad, 'detail': 'all %d canary cases behaved' % len(cases) if not bad else 'canary mismatch: %s' % [(c['case'], c['got_violation'], c['error']) for c in bad],
+            'obligations': len(cases), 'cases': cases}
